@@ -275,6 +275,91 @@ def gen_load(rng, size=None, malformed=False):
                 context=rng.random() < 0.3, wf=wf, sub_entries=rng.random() < 0.3)
 
 
+# ====================================================================== generator (iii): histories
+def gen_history(rng):
+    """Loads and read-backs on one controller whose chip and application id come from nested
+    `with mc(x=.., y=.., app_id=..)` blocks (partly or wholly; the rest explicit), with loads that fail
+    inside blocks: caught inside the block, or leaving one or more blocks by the exception and caught
+    outside, followed by implicitly addressed calls."""
+    coords = [(0, 0), (0, 1), (1, 0), (1, 1)]
+    styles = ["full", "full", "fresh", "fragmented"]
+    rng.shuffle(styles)
+    chips = [[x, y, gen_chip(rng, st)] for (x, y), st in zip(coords, styles)]
+    for ch in chips:
+        ch[2]["zero_ok"] = False
+    counter = [0]
+
+    def explicit_for(known, force=0.15):
+        kw = {}
+        if "x" not in known or rng.random() < force:
+            kw["x"] = rng.randrange(2)
+        if "y" not in known or rng.random() < force:
+            kw["y"] = rng.randrange(2)
+        return kw
+
+    def block(depth, known):
+        stmts = []
+        for _ in range(rng.randint(1, 3) if depth else rng.randint(2, 4)):
+            u = rng.random()
+            if depth < 3 and u < 0.45:
+                kw = {}
+                which = rng.choice(["xy", "xy", "x", "y", "app", "xyapp"])
+                if "x" in which:
+                    kw["x"] = rng.randrange(2)
+                if "y" in which:
+                    kw["y"] = rng.randrange(2)
+                if "app" in which:
+                    kw["app_id"] = rng.choice([1, 30, 200, 255])
+                inner = block(depth + 1, known | set(kw))
+                w = ["with", kw, inner]
+                stmts.append(["try", [w]] if rng.random() < 0.7 else w)
+            elif u < 0.85:
+                counter[0] += 1
+                kw = explicit_for(known)
+                if rng.random() < 0.15:
+                    kw["app_id"] = rng.choice([7, 99])
+                ld = ["load", kw, [rand_entry(rng) for _ in range(rng.randint(1, 6))], counter[0]]
+                stmts.append(["try", [ld]] if rng.random() < 0.35 else ld)
+            else:
+                counter[0] += 1
+                stmts.append(["read", explicit_for(known), counter[0]])
+        return stmts
+    program = [["try", [s]] for s in block(0, set())]
+    return dict(kind="history", chips=chips, program=program, wf="valid")
+
+
+def flatten(program, outcomes):
+    """The statements executed, in order, each with the chip and application id it addresses by the lexical
+    rule (innermost enclosing block naming the argument; app_id 66 when none does), given the outcome of each
+    executed statement (an exception unwinds to the nearest enclosing try)."""
+    out = []
+
+    class Unwind(Exception):
+        pass
+
+    def run(stmts, ctx):
+        for s in stmts:
+            if s[0] == "with":
+                run(s[2], dict(ctx, **s[1]))
+            elif s[0] == "try":
+                try:
+                    run(s[1], ctx)
+                except Unwind:
+                    pass
+            else:
+                a = dict(ctx, **s[1])
+                out.append(dict(id=s[-1], kind=s[0], x=a["x"], y=a["y"], app_id=a["app_id"],
+                                es=s[2] if s[0] == "load" else None))
+                o = outcomes.get(s[-1])
+                if o is None or o[0] != "ok":
+                    raise Unwind()
+    try:
+        run(program, {"app_id": 66})
+    except Unwind:
+        pass
+    return out
+
+
 # ====================================================================== enumerations
 def fork_pair_cases(rng, quick):
     """Two nets with the same key and mask meeting on chip (2, 2): the first tree is rooted there, the second
@@ -359,8 +444,40 @@ def coq_load_case(c):
     return "load_case %s %s %s %s" % (m, tables, zlit(c["app_id"]), vbool(c["mode"] == "entries"))
 
 
+def coq_history_case(c, ops):
+    m = vlist("(%s, %s)" % (chipl((x, y)), coq_chip(spec)) for x, y, spec in c["chips"])
+    hops = vlist("HLoad %s %s %s %s" % (zlit(o["x"]), zlit(o["y"]), zlit(o["app_id"]), vlist(coq_entry(e) for e in o["es"]))
+                 if o["kind"] == "load" else "HRead %s %s" % (zlit(o["x"]), zlit(o["y"])) for o in ops)
+    return "history_case %s %s" % (m, hops)
+
+
 def coq_case(c):
     return coq_trees_case(c) if c["kind"] == "trees" else coq_load_case(c)
+
+
+def canon_history_model(v):
+    items, dig = v
+    ops = []
+    for it in items:
+        if it[0] == "inl":
+            res, trace = it[1]
+            out = {"LOk": ["ok"], "LOther": ["other"]}.get(res[0]) or ["routererror"] + list(res[1:])
+            ops.append([out, [canon_titem(k) for k in trace], None])
+        else:
+            r, trace = it[1]
+            rb = None
+            if r[0] == "Ok":
+                n, es = r[1]
+                rb = [n, [[i, list(e[0]), e[1], e[2], list(e[3]), a, co] for (i, e, a, co) in es]]
+            ops.append([["ok"] if rb else ["other"], [canon_titem(k) for k in trace], rb])
+    digest = [[x, y, [[[i, list(sl)] for i, sl in d[0]], [list(b) for b in d[1]], d[2]]] for x, y, d in dig]
+    return dict(ops=ops, digest=digest)
+
+
+def canon_history_impl(o):
+    ops = [[(["other"] if r["outcome"][0] == "other" else r["outcome"]), r["trace"], r["readback"]] for r in o["ops"]]
+    digest = [[x, y, d[:3]] for x, y, d in o["ops"][-1]["digest"]] if o["ops"] else None
+    return dict(ops=ops, digest=digest)
 
 
 # ====================================================================== canonical forms
@@ -456,8 +573,20 @@ def oracle_trees(c, out):
             if k in got:
                 return ("tables:duplicate-entry", "two entries with key %#x mask %#x on chip %r" % (e[1], e[2], xy))
             got[k] = e
-    if set(got) != set(seen):
-        missing, extra = sorted(set(seen) - set(got)), sorted(set(got) - set(seen))
+    missing, extra = sorted(set(seen) - set(got)), sorted(set(got) - set(seen))
+    if c.get("entry") == "brt-true":
+        # omit_default_routes=True: an entry may be left out only where default routing does the same, i.e.
+        # the packets enter by one link and leave by the opposite link and nowhere else
+        for k in missing:
+            outs, ins = seen[k][0][1], set(i for i, _ in seen[k])
+            if not (len(outs) == 1 and len(ins) == 1 and min(outs) in range(6) and min(ins) in range(6)
+                    and min(outs) == opposite(min(ins))):
+                return ("tables:omitted-entry-not-default-routed",
+                        "build_routing_tables(omit_default_routes=True): no entry on chip %r for key %#x mask %#x "
+                        "although the trees enter it from %r and leave it by %r, which default routing does not do"
+                        % (k[0], k[1], k[2], sorted(ins), sorted(outs)))
+        missing = []
+    if missing or extra:
         return ("tables:entries-missing-or-extra", "entries missing for %r, unexpected for %r" % (missing[:3], extra[:3]))
     for k, e in got.items():
         outs = seen[k][0][1]
@@ -563,10 +692,77 @@ def oracle_load(c, o):
     return None
 
 
+def oracle_history(c, o):
+    """Every executed call must talk to the chip, and use the application id, that it addresses by the
+    lexical rule; the routers of all chips are followed step by step with the sentences of oracle_load."""
+    if o == ["hang"]:
+        return ("history:hang", "the history does not terminate")
+    import sim_router_c10 as sim
+    slots = {}
+    for x, y, spec in c["chips"]:
+        d = spec["dflt"]
+        sl = [[d[0], d[1], 0xff000000 | d[2], d[3], d[4]] for _ in range(1024)]
+        for i, s_ in spec["listed"]:
+            sl[i] = list(s_)
+        slots[(x, y)] = sl
+    loaded = {}
+    ops = flatten(c["program"], {r["id"]: r["outcome"] for r in o["ops"]})
+    if [p["id"] for p in ops] != [r["id"] for r in o["ops"]]:
+        return ("history:statements-executed", "statements executed %r, expected %r (an exception ends the "
+                "enclosing try block only)" % ([r["id"] for r in o["ops"]], [p["id"] for p in ops]))
+    for p, r in zip(ops, o["ops"]):
+        xy = (p["x"], p["y"])
+        what = "statement %d (%s addressed to chip %r, application %d)" % (p["id"], p["kind"], xy, p["app_id"])
+        wrong = [t for t in r["trace"] if tuple(t[1:3]) != xy]
+        if wrong:
+            return ("history:wrong-chip", "%s: command sent to chip %r: %r" % (what, tuple(wrong[0][1:3]), wrong[0]))
+        if p["kind"] == "load":
+            es, tr = p["es"], r["trace"]
+            if not tr or tr[0][0] != "scp" or tr[0][4] != 28:
+                if r["outcome"][0] == "ok" or tr:
+                    return ("history:no-alloc", "%s: the first command is not the allocation: %r" % (what, tr[:2]))
+                return ("history:raises", "%s: raised %r before any command" % (what, r["outcome"]))
+            a = tr[0]
+            if a[5] != (p["app_id"] << 8 | 3) or a[6] != len(es):
+                return ("history:alloc-args", "%s: allocation asks for %d entries for application %d"
+                        % (what, a[6], a[5] >> 8))
+            base = a[8]
+            if base == 0:
+                if r["outcome"] != ["routererror", len(es), xy[0], xy[1]]:
+                    return ("history:no-router-error", "%s: no block could be allocated, outcome %r" % (what, r["outcome"]))
+                if len(tr) != 1:
+                    return ("history:commands-after-failed-alloc", "%s: allocation failed, yet %r" % (what, tr[1:3]))
+            else:
+                if r["outcome"] != ["ok"]:
+                    return ("history:raises", "%s: block %d allocated, yet %r" % (what, base, r["outcome"]))
+                for i, e in enumerate(es):
+                    slots[xy][base + i] = [0, p["app_id"], route_word(e[0]), e[1], e[2]]
+                    loaded[(xy, base + i)] = (e, p["app_id"])
+            for x, y, d in r["digest"]:
+                sl = slots[(x, y)]
+                used = [[i, s_] for i, s_ in enumerate(sl) if s_[2] & 0xff000000 != 0xff000000]
+                if d[0] != used or d[3] != sim.cksum(b"".join(sim.struct.pack("<HHIII", *s_) for s_ in sl)):
+                    return ("history:router-contents", "%s: the router of chip %r does not hold what was loaded "
+                            "into it (and only that): in use %r..., expected %r..." % (what, (x, y), d[0][:3], used[:3]))
+        else:
+            if r["outcome"] != ["ok"]:
+                return ("history:readback-raises", "%s: raised %r" % (what, r["outcome"]))
+            back = dict((g[0], g) for g in r["readback"][1])
+            for (ch, idx), (e, app) in loaded.items():
+                if ch == xy:
+                    g = back.get(idx)
+                    if g is None or set(g[1]) != set(e[0]) or g[2] != e[1] or g[3] != e[2] or g[5] != app:
+                        return ("history:readback", "%s: entry %d was loaded as %r for application %d, read back %r"
+                                % (what, idx, e[:3], app, g))
+    return None
+
+
 # ====================================================================== the check
 def nontrivial(c, o):
     if c["kind"] == "trees":
         return c["wf"] == "valid" and len(c["routes"]) >= 2 and o[0] in ("ok", "multisource")
+    if c["kind"] == "history":
+        return isinstance(o, dict) and len(o["ops"]) >= 2
     return c["wf"] == "valid" and sum(len(es) for _, es in c["tables"]) >= 1 and isinstance(o, dict)
 
 
@@ -587,8 +783,13 @@ def run(chk, args):
         cases += [b["replay"]["case"] for b in rep.get("no_longer_checks", []) if "case" in b.get("replay", {})]
     else:
         quick = chk.tier == "quick"
-        n_trees, n_loads = (800, 300) if quick else (30000, 4000)
+        n_trees, n_loads, n_hist = (800, 220, 70) if quick else (30000, 4000, 2000)
         cases = [gen_trees(chk.rng, malformed=(i % 8 == 7)) for i in range(n_trees)]
+        for i, c in enumerate(cases):
+            # every other well-formed case goes through the deprecated second entry point of the conversion
+            c["entry"] = ["r2t", "brt-false", "r2t", "brt-true"][i % 4] if c["wf"] == "valid" else \
+                ["r2t", "brt-false"][(i // 8) % 2]
+        cases += [gen_history(chk.rng) for _ in range(n_hist)]
         cases += fork_pair_cases(chk.rng, quick)
         cases += [gen_load(chk.rng, malformed=(i % 10 == 9)) for i in range(n_loads)]
         cases += route_enum_cases(chk.rng, quick)
@@ -610,6 +811,7 @@ def run(chk, args):
         chk.count("%s:wf:%s" % (c["kind"], c["wf"]))
         if c["kind"] == "trees":
             chk.count("trees:outcome:" + o[0])
+            chk.count("trees:entry:" + c.get("entry", "r2t"))
             chk.count("trees:share:" + c["share"])
             chk.count("trees:classes:" + c.get("classes", "plain"))
             chk.count("trees:subclass-nodes:" + ("0" if not any(len(n) > 3 and n[3] for _, t in c["routes"]
@@ -618,6 +820,17 @@ def run(chk, args):
             why = oracle_trees(c, o)
             if why:
                 chk.fail_input(why[0], why[1], dict(case=c, observed=o))
+        elif c["kind"] == "history":
+            if isinstance(o, dict):
+                chk.count("history:statements:%d" % min(len(o["ops"]), 8))
+                for r in o["ops"]:
+                    chk.count("history:outcome:" + r["outcome"][0])
+                chk.count("history:block-left-by-exception:" + str(json.dumps(c["program"]).count('"with"') > 0 and any(
+                    r["outcome"][0] != "ok" for r in o["ops"])))
+            why = oracle_history(c, o)
+            if why:
+                chk.fail_input(why[0], why[1], dict(case=c, observed=o if not isinstance(o, dict) else
+                                                    [[r["id"], r["outcome"], r["trace"][:4]] for r in o["ops"]]))
         else:
             if isinstance(o, dict):
                 chk.count("load:outcome:" + o["outcome"][0])
@@ -644,29 +857,45 @@ def run(chk, args):
         try:
             header = ("From Coq Require Import ZArith List. Import ListNotations. Open Scope Z_scope.\n"
                       "Require Import Rig.Model.Base Rig.Model.Tables Rig.Model.Router.\n")
-            groups = {"trees": ([], 80), "load": ([], 16), "big": ([], 1)}
-            for i, c in enumerate(cases):
-                g = "trees" if c["kind"] == "trees" else \
+            groups = {"trees": ([], 80), "load": ([], 16), "big": ([], 1), "history": ([], 8)}
+            exprs = {}
+            for i, (c, o) in enumerate(zip(cases, outs)):
+                if c["kind"] == "trees" and c.get("entry") == "brt-true":
+                    continue      # remove_default_routes is C04's model; here the oracle alone judges
+                if c["kind"] == "history":
+                    if not isinstance(o, dict) or not o["ops"]:
+                        continue
+                    exprs[i] = coq_history_case(c, flatten(c["program"], {r["id"]: r["outcome"] for r in o["ops"]}))
+                else:
+                    exprs[i] = coq_case(c)
+                g = "trees" if c["kind"] == "trees" else "history" if c["kind"] == "history" else \
                     "big" if sum(len(es) for _, es in c["tables"]) > 200 else "load"
                 groups[g][0].append(i)
             vals = {}
             for g, (idx, shard) in groups.items():
                 if idx:
-                    vals.update(zip(idx, chk.coq_eval(header, [coq_case(cases[i]) for i in idx],
-                                                      shard=shard, name=g)))
+                    vals.update(zip(idx, chk.coq_eval(header, [exprs[i] for i in idx], shard=shard, name=g)))
             bad = 0
             for i, (c, o) in enumerate(zip(cases, outs)):
+                if i not in vals:
+                    continue
                 v = vals[i]
                 chk.traces_validated += 1
                 if o == ["hang"]:
                     continue
                 if c["kind"] == "trees":
                     a, b = canon_trees_model(v), canon_trees_impl(o)
+                elif c["kind"] == "history":
+                    a, b = canon_history_model(v), canon_history_impl(o)
                 else:
                     a, b = canon_load_model(v, c), canon_load_impl(o)
                 if a != b:
                     bad += 1
                     if bad <= 3:
+                        if c["kind"] == "history":
+                            what = "history: model %r, implementation %r" % (str(a)[:600], str(b)[:600])
+                            chk.disagree(what, dict(case=c))
+                            continue
                         if c["kind"] == "load":
                             ks = [k for k in a if a[k] != b[k]]
                             what = "load: model and implementation differ in %r: model %r, implementation %r" % (
@@ -678,8 +907,11 @@ def run(chk, args):
                 nt = sum(1 for c in cases if c["kind"] == "trees")
                 chk.oblige("correspondence:routing_tree_to_tables (%d cases, exact tables incl. order of chips "
                            "and entries / exact error)" % nt, True)
+                nh = sum(1 for c in cases if c["kind"] == "history")
                 chk.oblige("correspondence:load+readback (%d cases: outcome, command trace, router contents, "
-                           "free list, staging buffer, decoded read-back)" % (len(cases) - nt), True)
+                           "free list, staging buffer, decoded read-back)" % (len(cases) - nt - nh), True)
+                chk.oblige("correspondence:histories (%d cases: per statement outcome, command trace and read-back, "
+                           "final routers)" % nh, True)
         except RuntimeError as e:
             chk.oblige("correspondence:model-evaluates", False, str(e))
     chk.coverage["rule"] = (
@@ -693,4 +925,11 @@ def run(chk, args):
         "contextual arguments) or load_routing_tables, followed by get_routing_table_entries; every 10th malformed; plus "
         "tables running through every single route, every complement of one and every pair of the 24 routes (every "
         "triple and every table length 0..64 in the thorough tier). "
-        "non-trivial = well-formed and (trees: >= 2 nets; loads: >= 1 entry); distinct by hash of the whole input")
+        "Every other well-formed tree case goes through the deprecated build_routing_tables(omit_default_routes=False / "
+        "True) instead of routing_tree_to_tables (same oracle; with True an entry may be absent only where the trees "
+        "enter by one link and leave by the opposite one). (iii) histories of 2-12 loads / read-backs on one controller "
+        "over four chips (two of them full) whose chip and app id come, wholly or partly, from up to three nested "
+        "`with controller(...)` blocks, with failing loads caught inside a block or leaving one or more blocks by the "
+        "exception, followed by implicitly addressed calls; each call is judged on the chip it addresses lexically. "
+        "non-trivial = well-formed and (trees: >= 2 nets; loads: >= 1 entry; histories: >= 2 statements executed); "
+        "distinct by hash of the whole input")
